@@ -210,6 +210,34 @@ pub fn wide_terms() -> Vec<R> {
     out
 }
 
+/// nested variety: every unordered constructor holding one multi-component unordered compound of
+/// every kind, whose own contents range over all pairs and triples of the pool (the constructor
+/// representatives all share the contents (a, b1), so they cannot vary what an inner set hashes to)
+pub fn nested_variety(f: &F) -> Vec<R> {
+    let pool = pool(f);
+    let set_tags: Vec<Tag> = COMPOUND_TAGS.iter().copied().filter(|t| t.shape() == Shape::Set).collect();
+    let mut contents: Vec<Vec<R>> = vec![];
+    for i in 0..pool.len() {
+        for j in (i + 1)..pool.len() {
+            contents.push(vec![pool[i].clone(), pool[j].clone()]);
+            for k in (j + 1)..pool.len() {
+                contents.push(vec![pool[i].clone(), pool[j].clone(), pool[k].clone()]);
+            }
+        }
+    }
+    let mut out = vec![];
+    for (n, c) in contents.iter().enumerate() {
+        for (m, &inner) in set_tags.iter().enumerate() {
+            // rotate the outer constructor so that every (outer, inner) pair occurs with many contents
+            let outer = set_tags[(n + m) % set_tags.len()];
+            out.push(R::node(outer, vec![R::node(inner, c.clone()), pool[n % pool.len()].clone()]));
+            let sym = [Tag::Sim, Tag::Equiv, Tag::EquivConc][(n + m) % 3];
+            out.push(R::node(outer, vec![R::pair(sym, c[0].clone(), c[1].clone()), R::node(inner, c.clone())]));
+        }
+    }
+    out
+}
+
 /// U_term for a format and tier (distinct recipes; see DESIGN 3.1).
 pub fn u_term(f: &F, tier: Tier) -> Vec<R> {
     let mut out = all_atoms(f);
@@ -224,6 +252,7 @@ pub fn u_term(f: &F, tier: Tier) -> Vec<R> {
                 out.extend(towers(d)); // every depth up to 8, the neighbours of 16 and 32, and 40
             }
             out.extend(wide_terms());
+            out.extend(nested_variety(f));
         }
         Tier::Thorough => {
             out = all_atoms_extended(f);
@@ -241,6 +270,7 @@ pub fn u_term(f: &F, tier: Tier) -> Vec<R> {
             out.extend(towers(8));
             out.extend(towers(64));
             out.extend(wide_terms());
+            out.extend(nested_variety(f));
         }
     }
     out
